@@ -905,6 +905,20 @@ fn gen_system(ch: &mut Chooser) -> System {
                 .sum::<f64>() as f32
         })
         .collect();
+    // sometimes the caller's parameter map also holds free parameters that no
+    // equation mentions: they must still get a value ("exactly the free
+    // parameters"); nothing constrains them, so only their presence is checked
+    let mut n = n;
+    let mut free = free;
+    let mut xstar = xstar;
+    if ch.odds("unused_free_params", 1, 5) {
+        let extra = 1 + ch.choose("unused_free_count", 2) as usize;
+        for _ in 0..extra {
+            n += 1;
+            free.push(true);
+            xstar.push(if exact { 0.5 } else { ch.float_sym("unused_val", 2.0, 8) });
+        }
+    }
     System {
         n,
         free,
@@ -1101,10 +1115,17 @@ pub fn run_c19(st: &Shared, _tier: Tier) -> RunReport {
     let r_jit = c19_solve::<JitFunction>(&sys, &ctx, &eq_nodes, &vars, &start, &sys.xstar);
     let x_jit = check(&mut rep, "jit", r_jit, &sys.xstar, &sys.b);
     if let (Some(a), Some(b)) = (&x_vm, &x_jit) {
+        // parameters that no equation mentions are unconstrained: the solver
+        // may leave them anywhere, so they are not compared
+        let mentioned: Vec<bool> = (0..sys.n)
+            .map(|i| sys.rows.iter().any(|r| r.iter().any(|(j, _)| *j == i)))
+            .collect();
         let d = a
             .iter()
             .zip(b)
-            .map(|(p, q)| (p - q).abs())
+            .zip(&mentioned)
+            .filter(|(_, m)| **m)
+            .map(|((p, q), _)| (p - q).abs())
             .fold(0.0, f64::max);
         rep.checked_oracle += 1;
         if !(d <= 1e-3 * (1.0 + bmax)) {
